@@ -409,10 +409,16 @@ def shards(ctx):
     return out
 
 
-def _present(acc, env, op, base, judge_fn, opkey, hist=None):
-    """The four presentations of one base encoding (hist: the history already executed in this process)."""
+def _present(acc, env, op, base, judge_fn, opkey, hist=None, before=None):
+    """The four presentations of one base encoding (hist: the history already executed in this process; before: set that
+    collects / holds the (buffer, key) pairs violated BEFORE the history - those belong to the plain shards)."""
     for buf in (base, base + GARBAGE[:2], base + GARBAGE, base[:-1]):
         outcome, viols = judge_fn(env, opkey, buf)
+        if before is not None and not hist:
+            before.update((buf, k) for k, _ in viols)
+            continue
+        if before:
+            viols = [(k, m) for k, m in viols if (buf, k) not in before]
         acc.n += 1
         acc._oc.add((outcome if isinstance(outcome, tuple) else (outcome, len(buf) - len(base))) + ((hist,) if hist else ()))
         name = outcome if isinstance(outcome, str) else "decoded-strict"
@@ -510,10 +516,13 @@ def _run_shard(ctx, shard):
     acc._oc = set()
     if shard[0] == "hist":
         _, hist, part = shard
+        before = set()
+        for op, base in hist_cases(part):           # same process, before the history: what fails anyway
+            _present(acc, env, op, base, judge, op, before=before)
         seen = run_history(env, hist)
         acc.count(hist + ":history-instructions", len([x for x in seen if not x.startswith("EXC:")]))
         for op, base in hist_cases(part):
-            _present(acc, env, op, base, judge, op, hist=hist)
+            _present(acc, env, op, base, judge, op, hist=hist, before=before)
             acc.nt_disjoint += 1
             acc.count(hist + ":bases")
         if part == "unused":
